@@ -50,11 +50,16 @@ class LoopContract:
                 v0 = self.variant(eng, s1) if self.variant else None
                 for k2, v2, s2 in eng.exec_block(node.body, s1):
                     if k2 in ("fall", "continue"):
-                        if v0 is not None:
-                            chk.prove(self.name + ".variant", s2.pc, z3.And(v0 >= 0, self.variant(eng, s2) < v0),
-                                      desc=f"termination: the variant is non-negative when the body is entered and strictly smaller after every iteration that continues the loop ({self.variant_desc})")
                         if self.on_step:
                             self.on_step(eng, s2)
+                        if v0 is not None:
+                            v1 = self.variant(eng, s2)
+                            if isinstance(v0, tuple):   # lexicographic pair (a, b), both bounded below by 0
+                                dec = z3.Or(z3.And(v0[0] >= 0, v1[0] < v0[0]), z3.And(v1[0] == v0[0], v0[1] >= 0, v1[1] < v0[1]))
+                            else:
+                                dec = z3.And(v0 >= 0, v1 < v0)
+                            chk.prove(self.name + ".variant", s2.pc, dec,
+                                      desc=f"termination: the variant is bounded below when the body is entered and strictly smaller (lexicographically for a pair) after every iteration that continues the loop ({self.variant_desc})")
                         chk.prove(self.name + ".step", s2.pc, self.inv(eng, s2), desc=f"loop body preserves the invariant: {self.desc}", sample=f"{self.name}: invariant after one arbitrary iteration")
                     elif k2 == "break":
                         out.append(("fall", None, s2))
